@@ -100,7 +100,12 @@ func (mod *Module) findIdentityBase(baseStr string) (*resolvedIdentity, []error)
 	case "", rootPrefix:
 		// This is a local identity which is defined within the current
 		// module
-		keyName := fmt.Sprintf("%s:%s", module(mod).Name, baseName)
+		owner := module(mod)
+		if owner == nil {
+			errs = append(errs, fmt.Errorf("%s: can't resolve the local base %s: the module that %s belongs to is not loaded", source, baseStr, mod.Name))
+			break
+		}
+		keyName := fmt.Sprintf("%s:%s", owner.Name, baseName)
 		base, ok = typeDict.identities.dict[keyName]
 		if !ok {
 			errs = append(errs, fmt.Errorf("%s: can't resolve the local base %s as %s", source, baseStr, keyName))
